@@ -36,7 +36,7 @@ ASSUMPTIONS = [
 def GATES(tier):
     return [("constructions_judged", 1500), ("hierarchies", 60), ("handwritten_parent_calls_compared", 200), ("post_init_checked", 300), ("unknown_kw_rejected", 100), ("overflow_collected", 50),
             ("nonconforming_rejected", 100), ("key_positional", 30), ("key_missing_rejected", 10), ("two_parents", 10), ("plain_grandchild", 10), ("spec_grandchild", 10), ("init_false_parent", 5),
-            ("redeclared_attr", 20), ("redefaulted_attr", 20), ("parent_post_init", 10), ("key_redefaulted", 3), ("plain_middle", 5), ("colliding_parents", 20), ("key_default_factory", 8), ("bare_redeclaration", 10), ("overflow_with_wildcard_dependant", 10), ("plain_subclass_post_init", 10), ("diamond_cases", 10), ("keyed_parent_ctor_cases", 20)]
+            ("redeclared_attr", 20), ("redefaulted_attr", 20), ("parent_post_init", 10), ("key_redefaulted", 3), ("plain_middle", 5), ("colliding_parents", 20), ("key_default_factory", 8), ("bare_redeclaration", 10), ("overflow_with_wildcard_dependant", 10), ("plain_subclass_post_init", 10), ("diamond_cases", 10), ("keyed_parent_ctor_cases", 20), ("falsy_keyword_cases", 50), ("overflow_inherited", 2), ("overflow_switched_off", 2), ("key_falsy_default", 2)]
 
 
 class H:
@@ -53,7 +53,7 @@ class H:
             out = {}
             for i in range(n):
                 nm = f"{prefix}{i + 1}"
-                default = rng.choice([None, rng.randint(1, 9) * 10])
+                default = rng.choice([None, rng.randint(1, 9) * 10, rng.randint(1, 9) * 10, 0])  # (0: a falsy default is a default)
                 init = True
                 if allow_init_false and default is not None and rng.random() < 0.15:
                     init = False
@@ -100,11 +100,17 @@ class H:
         # key on the root (generated constructors only)
         if self.classes["A"]["ctor"] == "generated" and rng.random() < 0.35:
             self.classes["A"]["key"] = "k"
-            self.classes["A"]["key_default"] = rng.choice([None, "kd"])
+            self.classes["A"]["key_default"] = rng.choice([None, "kd", ""])  # ("": a falsy default is a default)
+            if self.classes["A"]["key_default"] == "":
+                self.features.add("key_falsy_default")
             self.classes["A"]["key_style"] = rng.choice(["lit", "attr", "factory", "field_factory"])
             if self.classes["A"]["key_default"] is not None and self.classes["A"]["key_style"] in ("factory", "field_factory"):
                 self.features.add("key_default_factory")
             self.features.add("key" if self.classes["A"]["key_default"] is None else "key_with_default")
+        # overflow attribute on the root (generated constructors only): the child inherits it or switches it off
+        if self.classes["A"]["ctor"] == "generated" and not two and rng.random() < 0.2:
+            self.classes["A"]["overflow"] = "extras"
+            self.features.add("parent_overflow")
         # child
         c_attrs = {}
         inherited = [n for p in (["A", "B"] if two else ["A"]) for n, a in self.classes[p]["attrs"].items() if a["init"]]
@@ -141,10 +147,15 @@ class H:
             self.order.append("PM")
             c_bases = ["PM"]
             self.features.add("plain_middle")
-        self.classes["C"] = {"bases": c_bases, "kind": "spec", "attrs": c_attrs, "ctor": "generated", "sigdefs": {}, "key": None, "overflow": "extras" if rng.random() < 0.3 else None,
+        if self.classes["A"].get("overflow"):
+            c_overflow = rng.choice([None, "OFF"])  # inherit / init_overflow_attr=None
+            self.features.add("overflow_inherited" if c_overflow is None else "overflow_switched_off")
+        else:
+            c_overflow = "extras" if rng.random() < 0.3 else None
+        self.classes["C"] = {"bases": c_bases, "kind": "spec", "attrs": c_attrs, "ctor": "generated", "sigdefs": {}, "key": None, "overflow": c_overflow,
                              "post_init": rng.random() < 0.6}
         self.order.append("C")
-        if self.classes["C"]["overflow"]:
+        if self.classes["C"]["overflow"] == "extras":
             self.features.add("overflow")
             if self._star_candidates and rng.random() < 0.6:
                 # an attribute that any later assignment would reset: nothing assigned during construction does
@@ -152,7 +163,7 @@ class H:
                 self.features.add("overflow_with_wildcard_dependant")
         r = rng.random()
         if r < 0.3:
-            cand = [n for n in self.managed("C") if n not in (self.effective("C", "key")[0], self.effective("C", "overflow")[0]) and self.attr_info("C", n)["init"]]
+            cand = [n for n in self.managed("C") if n not in (self.effective("C", "key")[0], self.effective("C", "overflow")[0]) and n not in self.overflow_names("C") and self.attr_info("C", n)["init"]]
             over = {rng.choice(cand): {"default": rng.randint(1, 9) + 1000, "init": True, "annotated": False, "style": "lit"}} if cand else {}
             self.classes["D"] = {"bases": ["C"], "kind": "plain", "attrs": over, "ctor": "inherited", "sigdefs": {}, "key": None, "overflow": None, "post_init": rng.random() < 0.5}
             self.order.append("D")
@@ -193,7 +204,7 @@ class H:
         for n, a in c["attrs"].items():
             if a["annotated"]:
                 out[n] = name
-        if c.get("overflow"):
+        if c.get("overflow") and c["overflow"] != "OFF":
             out[c["overflow"]] = name
         return out
 
@@ -205,9 +216,15 @@ class H:
     def effective(self, name, what):
         for n in self.mro(name):
             v = self.classes[n].get(what)
+            if v == "OFF":
+                return None, n  # switched off here: nothing is inherited from further up
             if v:
                 return v, n
         return None, None
+
+    def overflow_names(self, name):
+        """Names that serve (or served, further up the MRO) as overflow attribute: never ordinary keywords of the cases."""
+        return {self.classes[n]["overflow"] for n in self.mro(name) if self.classes[n].get("overflow") not in (None, "OFF")}
 
     def key_default(self, name, key):
         """Default of the key as seen from class `name`: nearest class-body re-default, else the owner's declaration."""
@@ -242,7 +259,9 @@ class H:
                 args = [f"bootstrap={not self.lazy}"]
                 if c.get("key"):
                     args.append(f"key={c['key']!r}")
-                if c.get("overflow"):
+                if c.get("overflow") == "OFF":
+                    args.append("init_overflow_attr=None")
+                elif c.get("overflow"):
                     args.append(f"init_overflow_attr={c['overflow']!r}")
                 L.append(f"@spec_class({', '.join(args)})")
             L.append(f"class {name}{'(' + ', '.join(c['bases']) + ')' if c['bases'] else ''}:")
@@ -298,7 +317,7 @@ class H:
         kw = dict(kw)
         if positional_key is not None:
             kw[key] = positional_key
-        init_names = {n for n in managed if n != overflow and (n == key or self.attr_info(name, n)["init"])}
+        init_names = {n for n in managed if n != overflow and n not in self.overflow_names(name) and (n == key or self.attr_info(name, n)["init"])}
         unknown = {k: v for k, v in kw.items() if k not in init_names}
         if unknown and not overflow:
             return ("raise", (TypeError,)), None, None
@@ -317,7 +336,7 @@ class H:
         state, calls = {}, {}
         inst_spec = self.spec_owner_class(name)
         for n, owner in managed.items():
-            if n == overflow:
+            if n == overflow or n in self.overflow_names(name):
                 continue
             if n == key:
                 state[n] = kw.get(key, self.key_default(name, key))
@@ -513,8 +532,8 @@ def run(ctx, params):
             if c["ctor"] == "handwritten":
                 init_names = list(c["sigdefs"])
             else:
-                init_names = [n for n in managed if n not in (overflow, key) and h.attr_info(cname, n)["init"]]
-            init_false = [n for n in managed if n not in (overflow, key) and not h.attr_info(cname, n)["init"]]
+                init_names = [n for n in managed if n not in (overflow, key) and n not in h.overflow_names(cname) and h.attr_info(cname, n)["init"]]
+            init_false = [n for n in managed if n not in (overflow, key) and n not in h.overflow_names(cname) and not h.attr_info(cname, n)["init"]]
             subsets = []
             for r in range(len(init_names) + 1):
                 subsets += list(itertools.combinations(init_names, r))
@@ -528,6 +547,9 @@ def run(ctx, params):
             if init_names:
                 cases.append(({init_names[0]: 12345 if h.attr_info(cname, init_names[0]).get("type") == "str" else "not-an-int"}, "kw" if key else None, "nonconforming"))
                 cases.append(({init_names[-1]: None}, "kw" if key else None, "nonconforming"))
+                # falsy values are values like any others
+                cases.append(({n: ("" if h.attr_info(cname, n).get("type") == "str" else 0) for n in init_names[:3]}, "kw" if key else None, "conforming"))
+                ctx.count("falsy_keyword_cases")
             cases.append(({"zz_unknown": 1}, "kw" if key else None, "unknown"))
             cases.append(({"zz_unknown": 1, "yy_unknown": "s", **({init_names[0]: "five" if h.attr_info(cname, init_names[0]).get("type") == "str" else 5} if init_names else {})}, "kw" if key else None, "unknown"))
             for n in init_false[:1]:
